@@ -4,7 +4,11 @@ mirror models and the (proved) reference definitions.
 Everything is compared exactly.  The projectors are k/p! with integer k, so `impl == k / p!` as IEEE doubles is an exact
 test (one correctly rounded division on both sides); the algebraic laws are then re-checked in integer arithmetic on the
 numerators of the implementation's own output.  Only the `partial=True` forms go through LAPACK (orth / qr): their
-defining relations are evaluated exactly on the returned floats (Fractions) and the residual is compared with 1e-8."""
+defining relations are evaluated exactly on the returned floats (read as dyadic rationals, big-integer arithmetic) and the
+residual is compared with 1e-8.  Which branch a (dim, p, partial) call takes and the shape it must return come from the Lean
+control-flow model (`symForm` / `antisymForm`, theorem `partial_shape`: columns = rank = binomial coefficient for ALL d, p); the
+three measured residuals (V^T V = 1, P V = V, number of columns = rank) imply V V^T = P by theorem
+`isometry_contract_of_residuals`; V V^T = P is measured as well."""
 from __future__ import annotations
 
 import itertools
@@ -23,14 +27,16 @@ RULE = ("enumerated, not sampled: every permutation of 1..n (n<=6; quick: n<=5 p
         "of <=6 elements over <=4 values (one sorted and one seeded-shuffled listing, two value alphabets) for unique_perms, every n<=10 "
         "for perfect_matchings (int, list and array forms, arange and non-arange labels), every (d,p) in 1..4 x 1..4 (d^p<=256) x partial "
         "on/off for the projectors; non-trivial = perm not the identity / multiset with a repeated value and >=2 distinct values / "
-        "even n>=4 / p>=2 and d>=2; distinct = hash of the case description. The only array-like arguments (the permutation of perm_sign: list or int64 ndarray, "
+        "even n>=4 / p>=2 and d>=2; distinct = hash of the case description. The projector functions are called in every accepted argument form "
+        "(positional, keyword, default p=2, partial given as bool or as 0/1) and the forms must agree bit for bit (dense) or each satisfy the isometry contract (partial). The only array-like arguments (the permutation of perm_sign: list or int64 ndarray, "
         "the object labels of perfect_matchings: list or int64 ndarray, the element list of unique_perms) keep their exact integer dtype; ndarray forms are also handed "
         "over as strided views; all of them are compared with a deep snapshot after the call")
 ASSUMPTIONS = [
     "LAPACK LU (scipy.linalg.det) is exact on column-selected identity matrices (entries 0/1, one 1 per column); checked on every evaluated input",
     "float64 sums of 0/+-1 and one division by p! are correctly rounded (IEEE 754), so impl == k/p! is an exact comparison",
     "`list(set(elements))` iteration order is implementation-defined; it is read from the interpreter and passed to the model",
-    "partial=True forms: tolerance 1e-8 on exactly evaluated residuals of LAPACK outputs",
+    "partial=True forms: tolerance 1e-8 on exactly evaluated residuals of LAPACK outputs (V^T V - 1, P V - V, V V^T - P; entries of V read as exact dyadic rationals)",
+    "perfect_matchings(0) / perfect_matchings([]) recurse without end (RecursionError) in the code; the mirror rejects the empty list too; n = 0 is not generated as a property case (diagnostic count only)",
 ]
 
 TOL = 1e-8
@@ -113,6 +119,19 @@ def check_perm_sign_zero_indexed(ctx, perm, model_ok):
     ctx.count("perm_sign/0-indexed:" + ("mirror agrees (sign = (-1)^(n-1) * true sign)" if agree else "mirror differs"))
 
 
+def check_perms_list(ctx, p, model_ok):
+    """the loop order of the projectors: `list(permutations(np.arange(p)))` against the mirror `permsList p` (sequence equality)"""
+    if not model_ok:
+        return
+    want = [[int(x) for x in t] for t in itertools.permutations(np.arange(p))]
+    got = ctx.lean().ask("c18_perms_list", {"p": p})["perms"]
+    ctx.count("itertools.permutations/sequence " + ("identical to mirror" if got == want else "differs from mirror"))
+    if sorted(got) != sorted(want) or len(got) != math.factorial(p):
+        ctx.violation("permsList: Lean mirror does not list the permutations of range(p) each once (model defect)",
+                      {"function": "symmetric_projection", "args": {"fn": "perms_list", "p": p}, "model": got[:30],
+                       "theorem": "permsList_complete / permsList_nodup"})
+
+
 # ------------------------------------------------------------------------------------------------ unique_perms
 
 def check_unique_perms(ctx, elements, model_ok):
@@ -188,7 +207,7 @@ def check_matchings(ctx, objs, form, model_ok):
                        "theorem": "perfectMatchings_valid / _nodup / _complete / _count"})
         return
     if model_ok:
-        model = ctx.lean().ask("c18_perfect_matchings", {"objects": objs})
+        model = ctx.lean().ask("c18_perfect_matchings", {"n": n} if form == "int" else {"objects": objs})  # `int` form: np.arange(n) in the mirror too
         mrows = model["rows"]
         mm = [_is_matching_row(r, objs) for r in mrows]
         if any(m is None for m in mm) or set(mm) != set(ms) or len(mm) != want:
@@ -198,6 +217,15 @@ def check_matchings(ctx, objs, form, model_ok):
             ctx.count("perfect_matchings/row order or pair orientation differs from mirror")
         else:
             ctx.count("perfect_matchings/rows identical to mirror")
+
+
+def probe_matchings_empty(ctx, model_ok):
+    """n = 0 (not a property case): the code recurses without end; the mirror rejects the empty list. Diagnostic count only."""
+    for label, arg in (("int", 0), ("list", []), ("array", np.array([], dtype=int))):
+        impl = _call(perfect_matchings, arg)
+        got = "RecursionError" if impl[0] == "raise" and impl[1].startswith("RecursionError") else ("returns" if impl[0] == "ok" else impl[1][:40])
+        model = ctx.lean().ask("c18_perfect_matchings", {"objects": []}).get("reject") if model_ok else "RecursionError"
+        ctx.count(f"perfect_matchings/n=0/{label}: impl {got}, mirror {'rejects ' + str(model) if model else 'returns'}")
 
 
 # ------------------------------------------------------------------------------------------------ projectors
@@ -241,7 +269,7 @@ def _laws(K, fac, d, p, anti, other=None):
 def _lean_proj(ctx, d, p, which):
     r = ctx.lean().ask("c18_proj", {"dim": d, "p": p, "which": which})
     N = r["shape"][0]
-    return np.array(r["data"], dtype=np.int64).reshape(N, N), int(r["trace"])
+    return np.array(r["data"], dtype=np.int64).reshape(N, N), int(r["trace"]), int(r["rank"])
 
 
 def py_ref(d, p, anti):
@@ -268,10 +296,10 @@ def check_dense(ctx, d, p, anti, model_ok):
     want_rank = math.comb(d, p) if anti else math.comb(d + p - 1, p)
     mirror_eq = None
     if model_ok:
-        lref, ltr = _lean_proj(ctx, d, p, "antisym_ref" if anti else "sym_ref")
-        if not np.array_equal(lref, ref) or ltr != fac * want_rank:
+        lref, ltr, lrank = _lean_proj(ctx, d, p, "antisym_ref" if anti else "sym_ref")
+        if not np.array_equal(lref, ref) or ltr != fac * want_rank or lrank != want_rank:
             ctx.violation(f"{name}: Lean reference projector differs from the Python reference or has the wrong trace (model defect)",
-                          {"function": name, "args": desc, "lean_trace": ltr, "expected_trace": fac * want_rank, "theorem": "rank_table"})
+                          {"function": name, "args": desc, "lean_trace": ltr, "lean_rank": lrank, "expected_trace": fac * want_rank, "theorem": "symSpec_rank / antiSpec_rank / proj_trace_model"})
             return None
     impl = _call(fn, d, p)
     if impl[0] != "ok":
@@ -280,7 +308,7 @@ def check_dense(ctx, d, p, anti, model_ok):
     P = impl[1]
     P = P.toarray() if sp.issparse(P) else np.asarray(P)
     if model_ok:
-        mir, _ = _lean_proj(ctx, d, p, "antisym" if anti else "sym")
+        mir, _, _ = _lean_proj(ctx, d, p, "antisym" if anti else "sym")
         K0 = _numerators(P, fac)
         mirror_eq = K0 is not None and K0.shape == mir.shape and np.array_equal(K0, mir)
         ctx.count(f"{name}/dense: mirror " + ("agrees" if mirror_eq else "differs"))
@@ -303,53 +331,139 @@ def check_dense(ctx, d, p, anti, model_ok):
     return None
 
 
-def check_partial(ctx, d, p, anti):
-    name = "antisymmetric_projection" if anti else "symmetric_projection"
+def call_forms(anti, d, p, partial):
+    """every accepted way of writing the call fn(d, p, partial) (name, thunk); the first one is the primary form"""
     fn = antisymmetric_projection if anti else symmetric_projection
+    pk = "p_param" if anti else "p_val"
+    flag = bool(partial)
+    forms = []
+    if not flag:
+        forms.append(("default-partial", lambda: fn(d, p)))
+    forms += [("positional", lambda: fn(d, p, flag)),
+              ("keyword", lambda: fn(dim=d, partial=flag, **{pk: p})),
+              ("int-flag", lambda: fn(d, p, int(flag)))]          # docstring: "partial: Default value of 0"
+    if p == 2:
+        forms.append(("default-p", lambda: fn(d, partial=flag)))
+    return forms
+
+
+def _dyadic(V):
+    """object array M of Python ints and e with V == M / 2**e exactly (every finite double is a dyadic rational)"""
+    ratios = [[float(x).as_integer_ratio() for x in row] for row in V]
+    e = max((den.bit_length() - 1 for row in ratios for _, den in row), default=0)
+    M = np.empty(V.shape, dtype=object)
+    for i, row in enumerate(ratios):
+        for j, (num, den) in enumerate(row):
+            M[i, j] = num * ((1 << e) // den)
+    return M, e
+
+
+def _maxabs(A):
+    return max((abs(int(x)) for x in A.flat), default=0)
+
+
+def _lean_form(ctx, d, p, anti, partial):
+    r = ctx.lean().ask("c18_form", {"dim": d, "p": p, "partial": bool(partial), "which": "antisym" if anti else "sym"})
+    return r["kind"], tuple(int(x) for x in r["shape"])
+
+
+def check_partial(ctx, d, p, anti, model_ok=True, form="positional"):
+    name = "antisymmetric_projection" if anti else "symmetric_projection"
     fac = math.factorial(p)
-    desc = {"fn": name, "dim": d, "p": p, "partial": True}
-    ctx.case(desc, d >= 2 and p >= 2, f"{name}/partial/p={p}")
+    desc = {"fn": name, "dim": d, "p": p, "partial": True, "form": form}
+    ctx.case(desc, d >= 2 and p >= 2, f"{name}/partial/p={p}/{form}")
     ref = py_ref(d, p, anti)
     N = d ** p
     want_rank = math.comb(d, p) if anti else math.comb(d + p - 1, p)
-    impl = _call(fn, d, p, True)
+    kind = "eye" if p == 1 else ("zeros" if anti and d < p else "orth")
+    if model_ok:
+        lkind, lshape = _lean_form(ctx, d, p, anti, True)
+        if lshape != (N, want_rank) or lkind != kind:  # theorem partial_shape: cannot happen
+            ctx.violation(f"{name}: Lean control-flow model gives {lkind} {lshape}, expected {kind} {(N, want_rank)} (model defect)",
+                          {"function": name, "args": desc, "model": [lkind, list(lshape)], "theorem": "partial_shape"})
+            return
+    thunk = dict(call_forms(anti, d, p, True)).get(form)
+    if thunk is None:
+        return
+    impl = _call(thunk)
     if impl[0] != "ok":
-        ctx.violation(f"{name}({d}, {p}, partial=True) raised {impl[1]}", {"function": name, "args": desc, "exception": impl[1]})
+        ctx.violation(f"{name}({d}, {p}, partial=True) [{form}] raised {impl[1]}", {"function": name, "args": desc, "exception": impl[1]})
         return
     V = impl[1]
     V = V.toarray() if sp.issparse(V) else np.asarray(V)
     if V.ndim != 2 or V.shape != (N, want_rank):
         ctx.violation(f"{name}({d}, {p}, partial=True) has shape {V.shape}, expected an isometry of shape {(N, want_rank)}",
                       {"function": name, "args": desc, "shape": list(V.shape), "expected_shape": [N, want_rank],
-                       "theorem": "rank_table (number of columns = rank)"})
+                       "theorem": "partial_shape / symSpec_rank / antiSpec_rank (number of columns = rank = binomial coefficient)"})
         return
     if want_rank == 0:
         return
-    # exact evaluation on the returned floats
-    Vf = [[Fraction(float(x)) for x in row] for row in V]
-    cols = list(zip(*Vf))
-    res1 = Fraction(0)
+    if V.dtype.kind not in "fiu" or not np.all(np.isfinite(V)):
+        ctx.violation(f"{name}({d}, {p}, partial=True) is not a finite real matrix (dtype {V.dtype})",
+                      {"function": name, "args": desc, "dtype": str(V.dtype)})
+        return
+    # exact evaluation on the returned floats: V = M / 2^e with integer M
+    M, e = _dyadic(V.astype(float))
+    one = 1 << (2 * e)
+    G = M.T.dot(M)                                   # 4^e * V^T V
     for a in range(want_rank):
-        for b in range(a, want_rank):
-            g = sum((x * y for x, y in zip(cols[a], cols[b]) if x and y), Fraction(0))
-            res1 = max(res1, abs(g - (1 if a == b else 0)))
-    res2 = Fraction(0)
-    nz = [np.nonzero(ref[i])[0] for i in range(N)]
-    for i in range(N):
-        for c in range(want_rank):
-            s = sum((int(ref[i, k]) * Vf[k][c] for k in nz[i]), Fraction(0)) / fac
-            res2 = max(res2, abs(s - Vf[i][c]))
-    ctx.extra["partial_max_residual"] = max(float(ctx.extra.get("partial_max_residual", 0.0)), float(res1), float(res2))
-    if res1 > TOL or res2 > TOL:
+        G[a, a] -= one
+    res1 = Fraction(_maxabs(G), one)
+    Kobj = ref.astype(object)
+    R = Kobj.dot(M) - fac * M                        # p! * 2^e * (P V - V)
+    res2 = Fraction(_maxabs(R), fac << e)
+    Q = fac * M.dot(M.T) - one * Kobj                # p! * 4^e * (V V^T - P)
+    res3 = Fraction(_maxabs(Q), fac * one)
+    ctx.extra["partial_max_residual"] = max(float(ctx.extra.get("partial_max_residual", 0.0)), float(res1), float(res2), float(res3))
+    if res1 > TOL or res2 > TOL or res3 > TOL:
         ctx.violation(f"{name}({d}, {p}, partial=True): columns are not an orthonormal basis of the subspace "
-                      f"(|V^T V - I| = {float(res1):.3g}, |P V - V| = {float(res2):.3g})",
+                      f"(|V^T V - I| = {float(res1):.3g}, |P V - V| = {float(res2):.3g}, |V V^T - P| = {float(res3):.3g})",
                       {"function": name, "args": desc, "residual_gram": float(res1), "residual_range": float(res2),
-                       "theorem": "symSpec_idempotent / antiSpec_idempotent"})
+                       "residual_projector": float(res3),
+                       "theorem": "isometry_contract_of_residuals / partial_contract"})
+        return
+    if kind == "eye" and not np.array_equal(V, np.eye(d)):   # early return `np.eye(dim)`: exact
+        ctx.violation(f"{name}({d}, 1, partial=True) is not the identity", {"function": name, "args": desc, "theorem": "early_returns"})
+
+
+def check_forms(ctx, d, p, anti, K):
+    """the dense projector written in every accepted call form must be bit-for-bit the matrix of the primary form"""
+    name = "antisymmetric_projection" if anti else "symmetric_projection"
+    fac = math.factorial(p)
+    for form, thunk in call_forms(anti, d, p, False)[1:]:
+        desc = {"fn": name, "dim": d, "p": p, "partial": False, "form": form}
+        ctx.case(desc, d >= 2 and p >= 2, f"{name}/dense-forms/{form}")
+        impl = _call(thunk)
+        P = impl[1]
+        if impl[0] == "ok":
+            P = P.toarray() if sp.issparse(P) else np.asarray(P)
+        K2 = _numerators(P, fac) if impl[0] == "ok" and getattr(P, "shape", None) == K.shape else None
+        if K2 is None or not np.array_equal(K2, K):
+            ctx.violation(f"{name}({d}, {p}) written as [{form}] differs from the positional call (which is the projector)",
+                          {"function": name, "args": desc, "impl": impl[1] if impl[0] != "ok" else str(getattr(P, "shape", None)),
+                           "theorem": "symProj_eq_spec / antisymProj_eq_spec"})
+
+
+def probe_guards(ctx, model_ok):
+    """the two `ValueError` guards of symmetric_projection (outside the property's quantifier d, p >= 1): diagnostic count of impl vs mirror"""
+    for d, p in ((0, 2), (2, 0), (0, 0), (-1, 2)):
+        impl = _call(symmetric_projection, d, p)
+        got = impl[1].split(":")[1].strip() if impl[0] == "raise" and impl[1].startswith("ValueError") else ("returns" if impl[0] == "ok" else impl[1][:30])
+        rej = None
+        if model_ok and d >= 0 and p >= 0:
+            rej = ctx.lean().ask("c18_form", {"dim": d, "p": p, "partial": False, "which": "sym"}).get("reject")
+        elif d < 0:
+            rej = "InvalidDim"
+        ctx.count("symmetric_projection/guard: " + ("mirror agrees" if rej == got else f"impl {got}, mirror {rej}"))
 
 
 def check_pair(ctx, d, p, model_ok):
     Ks = check_dense(ctx, d, p, False, model_ok)
     Ka = check_dense(ctx, d, p, True, model_ok)
+    if Ks is not None:
+        check_forms(ctx, d, p, False, Ks)
+    if Ka is not None:
+        check_forms(ctx, d, p, True, Ka)
     if Ks is not None and Ka is not None and p >= 2 and Ks.shape == Ka.shape:
         fac = math.factorial(p)
         desc = {"fn": "sym/antisym pair", "dim": d, "p": p}
@@ -375,7 +489,7 @@ def run(ctx, model_ok=True):
     quick = ctx.tier == "quick"
     # corpus: minimal reproducers of past failures first
     check_dense(ctx, 2, 2, True, model_ok)
-    check_partial(ctx, 2, 2, True)
+    check_partial(ctx, 2, 2, True, model_ok)
     check_perm_sign(ctx, [2, 1], model_ok)
     check_unique_perms(ctx, [1, 1, 2], model_ok)
     check_matchings(ctx, [0, 1, 2, 3], "int", model_ok)
@@ -424,17 +538,25 @@ def run(ctx, model_ok=True):
             labels = [int(x) for x in rng.choice(50, size=n, replace=False)]
             check_matchings(ctx, labels, "list", model_ok)
             check_matchings(ctx, [int(x) - 7 for x in rng.permutation(n)], "array", model_ok)
+    probe_matchings_empty(ctx, model_ok)
     if not quick:
         for _ in range(40):
             n = int(rng.choice([2, 4, 6, 8, 10]))
             check_matchings(ctx, [int(x) for x in rng.choice(1000, size=n, replace=False) - 500], str(rng.choice(["list", "array"])), model_ok)
 
-    # projectors: the whole table
+    # projectors: the loop order, then the whole table
+    for p in range(0, 6 if quick else 7):
+        check_perms_list(ctx, p, model_ok)
     for d, p in TABLE:
         check_pair(ctx, d, p, model_ok)
     for d, p in TABLE:
-        check_partial(ctx, d, p, False)
-        check_partial(ctx, d, p, True)
+        for anti in (False, True):
+            forms = [f for f, _ in call_forms(anti, d, p, True)]
+            if d ** p > 81:   # 256 x 256: the primary form and one seeded alternative
+                forms = [forms[0], forms[1 + int(rng.integers(len(forms) - 1))]]
+            for form in forms:
+                check_partial(ctx, d, p, anti, model_ok, form)
+    probe_guards(ctx, model_ok)
     ctx.extra["projector_table"] = [list(t) for t in TABLE]
 
 
@@ -452,8 +574,10 @@ def replay(ctx, rec):
     elif fn in ("symmetric_projection", "antisymmetric_projection"):
         anti = fn.startswith("anti")
         if a.get("partial"):
-            check_partial(ctx, a["dim"], a["p"], anti)
+            check_partial(ctx, a["dim"], a["p"], anti, True, a.get("form", "positional"))
         else:
-            check_dense(ctx, a["dim"], a["p"], anti, True)
+            K = check_dense(ctx, a["dim"], a["p"], anti, True)
+            if K is not None and a.get("form"):
+                check_forms(ctx, a["dim"], a["p"], anti, K)
     elif fn == "sym/antisym pair":
         check_pair(ctx, a["dim"], a["p"], True)
